@@ -22,7 +22,11 @@ DGateT(g, p) ==
     [] g.k = "CRx" -> Ctl0(Base1("Rx", (p + 4) % 16))
     [] g.k = "CU1" -> Diag4(RZero, RZero, RZero, Mul(FromInt(2), Mul(RI, W((2 * p) % 16))))
 IsRot(g) == g.par = 1 /\ g.k \in {"Rx", "Ry", "Rz", "CRz", "CRx", "CU1"}
-IsSc(g) == g.par = 1 /\ g.k \in {"scalar", "mscalar"}
+IsSc(g) == g.par = 1 /\ g.k \in {"scalar", "mscalar", "sqrt"}
+\* d sqrt(f) = f' / (2 sqrt f): the factor 1 / (2 sqrt(c0/8)) for the admissible values of SqrtVal
+DSqrt(c0) == CASE c0 = 1 -> Gauss(2, 0, 1) [] c0 = 2 -> Gauss(1, 0, 0) [] c0 = 4 -> Gauss(1, 0, 1) [] c0 = 8 -> Gauss(1, 0, 2)
+               [] c0 = 16 -> Gauss(1, 0, 3) [] c0 = 32 -> Gauss(1, 0, 4)
+ScT(v) == [dom |-> <<>>, cod |-> <<>>, a |-> <<v>>]
 Coef(g, v) == IF v = "x" THEN g.pf.cx ELSE g.pf.cy
 Scal(M, n) == ScaleT(FromInt(n), M)
 \* fold a circuit with an explicit tensor per layer
@@ -45,7 +49,8 @@ PureGrad(pcirc, qc, v) ==          \* pcirc: symbolic (normalised), qc: its grou
                   ELSE zero
       termA(k) == LET g == pcirc.layers[k].g IN
                   IF IsSc(g) /\ Coef(g, v) # 0
-                  THEN Scal(SemTsFrom(IdT(Q(Len(qc.ty))), Len(qc.ty), [base EXCEPT ![k] = One00], Offs(qc), 1), Coef(g, v))
+                  THEN Scal(SemTsFrom(IdT(Q(Len(qc.ty))), Len(qc.ty),
+                                      [base EXCEPT ![k] = IF g.k = "sqrt" THEN ScT(DSqrt(qc.layers[k].g.pf.c0)) ELSE One00], Offs(qc), 1), Coef(g, v))
                   ELSE zero IN
   [A |-> SumTs(termA, n, zero).a, B |-> SumTs(termB, n, zero).a]
 \* mixed: CQ maps per layer
@@ -69,7 +74,7 @@ MixedGrad(pcirc, qc, v) ==
                   ELSE zero
       termA(k) == LET g == pcirc.layers[k].g gq == qc.layers[k].g IN
                   IF IsSc(g) /\ Coef(g, v) # 0
-                  THEN LET d == IF g.k = "mscalar" THEN FromInt(Coef(g, v))
+                  THEN LET d == IF g.k \in {"mscalar", "sqrt"} THEN FromInt(Coef(g, v))           \* d|sqrt f|^2 = f'
                                 ELSE Mul(FromInt(2 * Coef(g, v)), Gauss(gq.re, gq.im, gq.s)) IN   \* d|s|^2 = 2 s s'
                        CQMsFrom(CQId(qc.ty), qc.ty, [base EXCEPT ![k] = Sc00(d)], qc.layers, 1).m
                   ELSE zero IN
